@@ -7,7 +7,7 @@ ID = 'C08'
 LEVEL = 'exploration'
 RULE = (
     'Generated forwarding chains/diamonds/cycles whose downstream handlers take time; actors await events without '
-    'first waiting for the other buses; no user re-dispatch after completion. The harness reads status + completion '
+    'first waiting for the other buses; some events are handed directly to two buses in the same breath (no forwarding handler; the first bus may have no handler for it); no user re-dispatch after completion. The harness reads status + completion '
     'signal of every event at every trace record (an observation any user code could make) and at every await return; '
     'once an event was observed complete, a fingerprint (status, result ids, statuses, value/error identities) is '
     'compared at every later record (value content included: actors call every result accessor, the flat list / dict views among them, on '
@@ -28,7 +28,7 @@ def _timeouts(draw):
     return {str(t): draw(_st.sampled_from([0.13, 0.27, 0.41, 0.77])) for t in range(4) if draw(_st.booleans())}
 
 
-P = Profile(timeouts=_timeouts(), min_buses=2, max_buses=3, fwd=1.0, typed_fwd=True, watch=True, actor_ops=['disp', 'disp', 'dispany', 'sleep', 'await', 'await', 'status', 'yield', 'acc'], acc_names=['event_result', 'event_results_list', 'event_results_by_handler_name', 'event_results_by_handler_id', 'event_results_flat_list', 'event_results_flat_dict'], rets=['idx', 'list', 'list', 'dict', 'dict', 'none', 'str'], maxdepth=[1, 2], wild=0.4, par=0.15, raises=0.1, durs=[0.01, 0.05, 0.1, 0.11, 0.25, 0.5])
+P = Profile(timeouts=_timeouts(), min_buses=2, max_buses=3, fwd=1.0, typed_fwd=True, watch=True, actor_ops=['disp', 'disp', 'dispany', 'disp2', 'sleep', 'await', 'await', 'status', 'yield', 'acc'], acc_names=['event_result', 'event_results_list', 'event_results_by_handler_name', 'event_results_by_handler_id', 'event_results_flat_list', 'event_results_flat_dict'], rets=['idx', 'list', 'list', 'dict', 'dict', 'none', 'str'], maxdepth=[1, 2], wild=0.4, par=0.15, raises=0.1, durs=[0.01, 0.05, 0.1, 0.11, 0.25, 0.5])
 
 
 def budget(tier):
@@ -70,6 +70,14 @@ def classes(F):
     how = {v['how'] for v in F.out.get('observed_complete', {}).values()}
     cl += ['observed:' + h for h in sorted(how)]
     oc = F.out.get('observed_complete', {})
+    if any(r['k'] == 'redisp' and r.get('also') and r.get('ok') for r in F.tr):
+        cl.append('same-object-handed-to-two-buses')
+        for r in F.tr:
+            if r['k'] == 'redisp' and r.get('also') and r.get('ok'):
+                first = next((x['bus'] for x in F.tr if x['k'] == 'disp' and x['ev'] == r['ev']), None)
+                if first is not None and not F.expected(first, r['ev']) and F.expected(r['bus'], r['ev']):
+                    cl.append('two-buses:first-has-no-handler-second-has')
+                    break
     for r in F.tr:
         if r['k'] == 'a-acc':
             cl.append('accessor-call:' + r['name'])
